@@ -10,8 +10,8 @@ import (
 	"fmt"
 	"net/url"
 	"os"
-	"strings"
 
+	"github.com/saucelabs/forwarder"
 	"github.com/saucelabs/forwarder/header"
 )
 
@@ -34,7 +34,7 @@ func RedactHeader(h header.Header) string {
 }
 
 func RedactBase64(s string) string {
-	if strings.HasPrefix(s, "data:") {
+	if forwarder.IsDataURI(s) {
 		return "data:xxxxx"
 	}
 
